@@ -94,7 +94,7 @@ def signals(journal, name=None, c=None):
     return [e for e in journal if e["ev"] == "cli_sig" and (name is None or e["name"] == name) and (c is None or e["c"] == c)]
 
 
-def relogin(sid="s2", resume="accept", sm=True, resumable=True, smid="smid-$CONN", roster=True, c=0, h=None, mechs=("PLAIN",)):
+def relogin(sid="s2", resume="accept", sm=True, resumable=True, smid="smid-$CONN", roster=True, c=0, h=None, mechs=("PLAIN",), bind_jid=JID):
     """second and later connections of a client that had stream management: the client asks to resume.
     resume: 'accept' (resumed with the server's real count unless h is given), 'fail' (then bind + enable again), 'none' (server no longer offers sm)"""
     st = [dict(op="connect", c=c), A("stream:stream", c=c), S(hdr(sid) + features(f_mechs(mechs)), c=c),
@@ -105,7 +105,7 @@ def relogin(sid="s2", resume="accept", sm=True, resumable=True, smid="smid-$CONN
         return st
     if resume == "fail":
         st += [A("resume", c=c), S("<failed xmlns='%s'><item-not-found xmlns='urn:ietf:params:xml:ns:xmpp-stanzas'/></failed>" % NS_SM, c=c)]
-    st += [A("iq", child="bind", c=c), S("<iq type='result' id='$ID'><bind xmlns='%s'><jid>%s</jid></bind></iq>" % (NS_BIND, JID), c=c)]
+    st += [A("iq", child="bind", c=c), S("<iq type='result' id='$ID'><bind xmlns='%s'><jid>%s</jid></bind></iq>" % (NS_BIND, bind_jid), c=c)]
     if sm and resume != "none":
         st += [A("enable", c=c), S("<enabled xmlns='%s' id='%s'%s/>" % (NS_SM, smid, " resume='true'" if resumable else ""), smOn=True, c=c)]
     if roster:
